@@ -262,3 +262,7 @@ pub use chunks::{
     VertexNormal,
     WmoPlacement,
 };
+
+// verification hook (guard: cfg(kani), set only by `cargo kani`): harness module lives in /verif
+#[cfg(kani)]
+mod verif_kani;
